@@ -34,17 +34,18 @@ theorem codon_at (L : List Blk) (st : Strand) (hst : st = .plus ∨ st = .minus)
     have : s + 3 - s = 3 := by omega
     simp [this]
 
-/-- the windows at `o + 3 i` for a list of indices -/
-theorem codons_mapM (L : List Blk) (st : Strand) (hst : st = .plus ∨ st = .minus)
-    (hv : ∀ b ∈ L, b.1 ≤ b.2) (hno : nonOverlap L = true) (o : Nat) :
-    ∀ (is : List Nat), (∀ i ∈ is, o + 3 * i + 3 ≤ blocksLen L) →
+/-- the windows at `o + 3 i` for a list of indices, over any location whose codon windows are known -/
+theorem codons_mapM_gen (l : Location) (st : Strand) (B : List Nat)
+    (hcodon : ∀ s : Nat, s + 3 ≤ locLen l → ∃ m, relInterval l (s : Int) ((s : Int) + 3) .plus = .ok m ∧
+      codonOk st ((B.drop s).take 3) m = true) (o : Nat) :
+    ∀ (is : List Nat), (∀ i ∈ is, o + 3 * i + 3 ≤ locLen l) →
       ∃ ms, (is.map (fun (i : Nat) => (o : Int) + 3 * (i : Int))).mapM
-          (fun cur => relInterval (.compound ⟨L, st⟩) cur (cur + 3) .plus) = .ok ms ∧
-        codonsMatch st (is.map (fun i => ((bases ⟨L, st⟩).drop (o + 3 * i)).take 3)) ms = true
+          (fun cur => relInterval l cur (cur + 3) .plus) = .ok ms ∧
+        codonsMatch st (is.map (fun i => (B.drop (o + 3 * i)).take 3)) ms = true
   | [], _ => ⟨[], rfl, rfl⟩
   | i :: is, h => by
-    obtain ⟨m, hm1, hm2⟩ := codon_at L st hst hv hno (o + 3 * i) (h i (by simp))
-    obtain ⟨ms, hms1, hms2⟩ := codons_mapM L st hst hv hno o is (fun j hj => h j (by simp [hj]))
+    obtain ⟨m, hm1, hm2⟩ := hcodon (o + 3 * i) (h i (by simp))
+    obtain ⟨ms, hms1, hms2⟩ := codons_mapM_gen l st B hcodon o is (fun j hj => h j (by simp [hj]))
     refine ⟨m :: ms, ?_, ?_⟩
     · have e : ((o + 3 * i : Nat) : Int) = (o : Int) + 3 * (i : Int) := by omega
       rw [e] at hm1
@@ -74,46 +75,79 @@ theorem triples_eq_range {α} (xs : List α) :
     | [_] => have := congrArg List.length hx; simp at this; omega
     | [_, _] => have := congrArg List.length hx; simp at this; omega
 
-/-- `_scan_codon_locations` after the (location, offset) pair has been prepared -/
-theorem scan_from (L : List Blk) (st : Strand) (hst : st = .plus ∨ st = .minus)
-    (hv : ∀ b ∈ L, b.1 ≤ b.2) (hno : nonOverlap L = true) (o : Nat) :
-    ∃ ms, (if ((locLen (.compound ⟨L, st⟩) : Nat) : Int) - (o : Int) ≥ 3
-            then scanWindows3 (.compound ⟨L, st⟩) (o : Int) else pure []) = .ok ms ∧
-      codonsMatch st (triples ((bases ⟨L, st⟩).drop o)) ms = true := by
-  have hlen : locLen (.compound ⟨L, st⟩) = blocksLen L := rfl
-  rw [hlen]
-  by_cases h3 : ((blocksLen L : Nat) : Int) - (o : Int) ≥ 3
+/-- `_scan_codon_locations` after the (location, offset) pair has been prepared: any directional location `l`
+    whose reading is `B` and whose codon windows are known -/
+theorem scan_generic (l : Location) (st : Strand) (hst : st = .plus ∨ st = .minus) (B : List Nat)
+    (hB : B.length = locLen l) (hstrand : locStrand l = .ok st)
+    (hcodon : ∀ s : Nat, s + 3 ≤ locLen l → ∃ m, relInterval l (s : Int) ((s : Int) + 3) .plus = .ok m ∧
+      codonOk st ((B.drop s).take 3) m = true) (o : Nat) :
+    ∃ ms, (if ((locLen l : Nat) : Int) - (o : Int) ≥ 3 then scanWindows3 l (o : Int) else pure []) = .ok ms ∧
+      codonsMatch st (triples (B.drop o)) ms = true := by
+  by_cases h3 : ((locLen l : Nat) : Int) - (o : Int) ≥ 3
   · rw [if_pos h3]
     unfold scanWindows3
-    have c1 : ¬ ¬ (0 ≤ (o : Int) ∧ (o : Int) < ((blocksLen L : Nat) : Int)) := by omega
-    have c2 : ¬ (3 > ((blocksLen L : Nat) : Int)) := by omega
-    have c3 : ¬ ((o : Int) + 3 > ((blocksLen L : Nat) : Int)) := by omega
+    have c1 : ¬ ¬ (0 ≤ (o : Int) ∧ (o : Int) < ((locLen l : Nat) : Int)) := by omega
+    have c2 : ¬ (3 > ((locLen l : Nat) : Int)) := by omega
+    have c3 : ¬ ((o : Int) + 3 > ((locLen l : Nat) : Int)) := by omega
     have hdir : assertDirectional st = .ok () := by
       unfold assertDirectional; rcases hst with h | h <;> simp [h, pure, Except.pure]
-    simp only [hlen]
+    simp only []
     rw [if_neg c1, if_neg c2, if_neg c3]
-    simp only [locStrand, hdir, bind, Except.bind, pure, Except.pure]
-    -- the start positions
-    have hk : ((((blocksLen L : Nat) : Int) - 3 + 1 - (o : Int) + 2) / 3).toNat = (blocksLen L - o) / 3 := by omega
-    have hr : range3 (o : Int) (((blocksLen L : Nat) : Int) - 3 + 1) =
-        (List.range ((blocksLen L - o) / 3)).map (fun (i : Nat) => (o : Int) + 3 * (i : Int)) := by
+    simp only [hstrand, hdir, bind, Except.bind, pure, Except.pure]
+    have hk : ((((locLen l : Nat) : Int) - 3 + 1 - (o : Int) + 2) / 3).toNat = (locLen l - o) / 3 := by omega
+    have hr : range3 (o : Int) (((locLen l : Nat) : Int) - 3 + 1) =
+        (List.range ((locLen l - o) / 3)).map (fun (i : Nat) => (o : Int) + 3 * (i : Int)) := by
       unfold range3
       rw [if_neg (by omega), hk]
     rw [hr]
-    obtain ⟨ms, h1, h2⟩ := codons_mapM L st hst hv hno o (List.range ((blocksLen L - o) / 3))
+    obtain ⟨ms, h1, h2⟩ := codons_mapM_gen l st B hcodon o (List.range ((locLen l - o) / 3))
       (by intro i hi; simp only [List.mem_range] at hi; omega)
     refine ⟨ms, h1, ?_⟩
-    rw [triples_eq_range, List.length_drop, bases_length]
-    have : (Loc.len ⟨L, st⟩ - o) / 3 = (blocksLen L - o) / 3 := rfl
-    rw [this]
-    have hmap : (List.range ((blocksLen L - o) / 3)).map (fun i => (((bases ⟨L, st⟩).drop o).drop (3 * i)).take 3) =
-        (List.range ((blocksLen L - o) / 3)).map (fun i => ((bases ⟨L, st⟩).drop (o + 3 * i)).take 3) := by
+    rw [triples_eq_range, List.length_drop, hB]
+    have hmap : (List.range ((locLen l - o) / 3)).map (fun i => ((B.drop o).drop (3 * i)).take 3) =
+        (List.range ((locLen l - o) / 3)).map (fun i => (B.drop (o + 3 * i)).take 3) := by
       apply List.map_congr_left; intro i _; rw [List.drop_drop]
     rw [hmap]; exact h2
   · rw [if_neg h3]
     refine ⟨[], rfl, ?_⟩
-    have : ((bases ⟨L, st⟩).drop o).length < 3 := by
-      rw [List.length_drop, bases_length]; unfold Loc.len; simp only; omega
+    have : (B.drop o).length < 3 := by rw [List.length_drop, hB]; omega
     rw [triples_short _ this]; rfl
+
+/-- … for a multi-block location -/
+theorem scan_from (L : List Blk) (st : Strand) (hst : st = .plus ∨ st = .minus)
+    (hv : ∀ b ∈ L, b.1 ≤ b.2) (hno : nonOverlap L = true) (o : Nat) :
+    ∃ ms, (if ((locLen (.compound ⟨L, st⟩) : Nat) : Int) - (o : Int) ≥ 3
+            then scanWindows3 (.compound ⟨L, st⟩) (o : Int) else pure []) = .ok ms ∧
+      codonsMatch st (triples ((bases ⟨L, st⟩).drop o)) ms = true :=
+  scan_generic (.compound ⟨L, st⟩) st hst (bases ⟨L, st⟩) (bases_length _) rfl
+    (fun s hs => codon_at L st hst hv hno s hs) o
+
+/-- one codon window of a single block -/
+theorem codon_at_single (b : Blk) (st : Strand) (hst : st = .plus ∨ st = .minus) (s : Nat) (h : s + 3 ≤ b.len) :
+    ∃ m, relInterval (.single b st) (s : Int) ((s : Int) + 3) .plus = .ok m ∧
+      codonOk st (((bases ⟨[b], st⟩).drop s).take 3) m = true := by
+  have hsu : st ≠ .unstranded := by rcases hst with h | h <;> simp [h]
+  have hrel := singleRel_ok b st hst s (s + 3) .plus (by omega) h
+  have hsr : strandRelativeTo st .plus = st := by rcases hst with h | h <;> subst h <;> simp [strandRelativeTo]
+  rw [hsr] at hrel
+  refine ⟨.single (subBlk st b s (s + 3)) st, ?_, ?_⟩
+  · simp only [relInterval]
+    have : ((s : Int) + 3) = ((s + 3 : Nat) : Int) := by omega
+    rw [this]; exact hrel
+  · unfold codonOk
+    have hval := subBlk_valid st b s (s + 3) (by omega)
+    simp only [wfLocation, hval, decide_true, locationStrand?, beq_self_eq_true, Bool.true_and, locationBases]
+    rw [bases_single _ st hsu, bases_single b st hsu, rd_subBlk st b s (s + 3) (by omega) h]
+    have : s + 3 - s = 3 := by omega
+    simp [this]
+
+/-- … for a single-block location -/
+theorem scan_from_single (b : Blk) (st : Strand) (hst : st = .plus ∨ st = .minus) (o : Nat) :
+    ∃ ms, (if ((locLen (.single b st) : Nat) : Int) - (o : Int) ≥ 3
+            then scanWindows3 (.single b st) (o : Int) else pure []) = .ok ms ∧
+      codonsMatch st (triples ((bases ⟨[b], st⟩).drop o)) ms = true :=
+  scan_generic (.single b st) st hst (bases ⟨[b], st⟩)
+    (by rw [bases_length]; simp [Loc.len, blocksLen, locLen]) rfl
+    (fun s hs => codon_at_single b st hst s hs) o
 
 end BioCantor.Proofs
